@@ -49,6 +49,7 @@ struct Inst {
   uint64_t mseed = 0;     // raw: seed of the solution mutations (drawn in the child)
   ll scale = 1;  // quantities are `scale` times those of a base instance (for the optimum oracle)
   bool huge = false;  // scaled so that the totals pass 2^31
+  bool extreme = false;  // totals between 2^62 and 2^63
   std::string str() const {
     std::ostringstream os;
     if (raw) {
@@ -184,6 +185,17 @@ static void runRaw(const Inst &in, std::ostream &os) {
   Transportation1dSolver sv(std::vector<ll>(in.u), std::vector<ll>(in.v), std::vector<ll>(in.s), std::vector<ll>(in.d));
   sv.run();
   Sol base = sv.computeSolution();
+  {
+    // the solver object is a public class: running it again must give the same (optimal) plan and assignment --
+    // nothing may be left over from the previous sweep
+    std::vector<int> asg = sv.computeAssignment();
+    sv.run();
+    os << "C solver_object_run_twice\n";
+    if (sv.computeSolution() != base) fail("Transportation1dSolver::run() called a second time on the same object returns a different plan");
+    if (sv.computeAssignment() != asg) fail("Transportation1dSolver::run() called a second time on the same object returns a different assignment");
+    sv.run();
+    if (sv.computeSolution() != base) fail("Transportation1dSolver::run() called a third time on the same object returns a different plan");
+  }
   vh::Rng g = vh::Rng::forCase(in.mseed, 0);
   auto mutate = [&](Sol sol) {
     int k = g.range(1, 3);
@@ -375,6 +387,7 @@ struct Runner {
     if (in.balance) out.count("via_balanceDemand");
     if (in.scale > 1) out.count("quantities_scaled");
     if (in.huge) out.count("quantities_total_above_2^31");
+    if (in.extreme) out.count("quantities_total_above_2^62");
     ll ts = sum(in.s), td = sum(in.d);
     out.count(ts == td ? "exact_balance" : (ts < td ? "slack" : "deficit"));
     out.count("sources_" + std::string(in.u.size() <= 4 ? std::to_string(in.u.size()) : (in.u.size() <= 12 ? "5-12" : "13+")));
@@ -531,6 +544,21 @@ static Inst randomInst(vh::Rng &g) {
     ll K = g.chance(1, 2) ? g.range(2, 1000) : g.range(1000, 3000000);
     // balanceDemand does not commute with scaling unless the deficit is spread evenly: only scale balanced ones
     if (!in.balance) { in.scale = K; for (auto &c : in.s) c *= K; for (auto &c : in.d) c *= K; }
+  } else if (qm <= 2 && !in.balance && n > 0 && m > 0 && g.chance(1, 12)) {
+    // extreme quantities: running totals between 2^62 and 2^63 (the top of the long long range the API accepts);
+    // positions collapse to {0, 1} so that total x distance still fits
+    for (auto &x : in.u) x = g.range(0, 1);
+    for (auto &x : in.v) x = g.range(0, 1);
+    ll td = std::max<ll>(1, sum(in.d));
+    ll kmin = (1ll << 62) / td + 1, kmax = (LLONG_MAX - 16) / td;
+    if (kmax >= kmin && sum(in.s) <= sum(in.d)) {
+      ll K = g.range(kmin, kmax);
+      in.scale = K;
+      in.huge = true;
+      in.extreme = true;
+      for (auto &c : in.s) c *= K;
+      for (auto &c : in.d) c *= K;
+    }
   } else if (qm <= 2 && !in.balance && g.chance(1, 4)) {
     // huge quantities (the API takes long long: cell and bin areas of a real design exceed 2^31): the totals pass 2^31
     // and 2^32 while total x position span stays below 2^60, so that no long long cost overflows
